@@ -125,6 +125,52 @@ fn run(ctx: &mut Ctx) {
             check(ctx, &t.encode(), "output high bits");
         }
     });
+    // every pair of reserved bits set together (a check that combines words with xor / add would let some through)
+    let reserved: Vec<(usize, u32)> = std::iter::once((0usize, 31u32))
+        .chain((16..31).map(|b| (9, b)))
+        .chain((0..32).map(|b| (12, b)))
+        .chain((24..32).map(|b| (13, b)))
+        .chain((8..32).map(|b| (16, b)))
+        .chain((8..32).map(|b| (17, b)))
+        .collect();
+    let nres = reserved.len() as u64;
+    ctx.cases("reserved-pairs", nres, |ctx, i, _rng| {
+        let base = Trg::simple(77, 0x0123_4567).encode();
+        let (w1, b1) = reserved[i as usize];
+        for &(w2, b2) in &reserved[i as usize..] {
+            let mut b = base.clone();
+            let mut set = |w: usize, bit: u32, b: &mut Vec<u8>| {
+                let v = u32::from_le_bytes(b[4 * w..4 * w + 4].try_into().unwrap()) | (1 << bit);
+                b[4 * w..4 * w + 4].copy_from_slice(&v.to_le_bytes());
+            };
+            set(w1, b1, &mut b);
+            set(w2, b2, &mut b);
+            check(ctx, &b, "two reserved bits");
+        }
+    });
+    // header / footer / output agreement on every single bit of the 28, with ordered counters
+    ctx.cases("trigout-bits", 28, |ctx, k, _rng| {
+        for out in [0x00AB_CDEFu32, 0x0FFF_FFFF, 0, 0x0800_0001] {
+            let t = Trg::simple(5, out);
+            for which in 0..3 {
+                let mut x = t.clone();
+                let v = (out ^ (1 << k)) & 0x0FFF_FFFF;
+                match which {
+                    0 => x.header_lo = Some(v),
+                    1 => x.footer_lo = Some(v),
+                    _ => {
+                        x.header_lo = Some(v);
+                        x.footer_lo = Some(v);
+                    }
+                }
+                // keep the counters ordered whatever the output is
+                x.scaledown = x.scaledown.max(x.output);
+                x.drift = x.drift.max(x.scaledown);
+                x.input = x.input.max(x.drift);
+                check(ctx, &x.encode(), "trig_out bit disagreement");
+            }
+        }
+    });
     // all orderings / ties of the counters
     ctx.cases("counters", 144, |ctx, i, _rng| {
         let o = vals[(i / 12) as usize];
